@@ -129,6 +129,9 @@ func (p *Parser) parseNotationInComments(notations []*ast.Comment, validOps map[
 				return logger.Errorf("%v: needs <dst> <literal> args", p.fset.Position(n.Pos()))
 			}
 			m = reLiteral.FindStringSubmatch(m[2])
+			if m == nil {
+				return logger.Errorf("%v: needs <dst> <literal> args", p.fset.Position(n.Pos()))
+			}
 			setter := option.NewLiteralSetter(args[0], m[1], n.Pos())
 			opts.Literals = append(opts.Literals, setter)
 		case "preprocess":
@@ -268,6 +271,10 @@ func (p *Parser) lookupManipulatorFunc(funcName, optName string, pos token.Pos) 
 
 	if 1 < sig.Results().Len() ||
 		(sig.Results().Len() == 1 && !util.IsErrorType(sig.Results().At(0).Type())) {
+		return nil, logger.Errorf("%v: function %v cannot use for %v func", p.fset.Position(pos), funcName, optName)
+	}
+
+	if sig.Params().Len() < 2 {
 		return nil, logger.Errorf("%v: function %v cannot use for %v func", p.fset.Position(pos), funcName, optName)
 	}
 
